@@ -447,6 +447,22 @@ func Contents(names []string) []Content {
 		b.Cyclic = true
 		return LocalRef("arrSelf")
 	})
+	add("arrayOfArrayOfItself", "recursive-container", func(b *BundleSpec, s int) J {
+		b.Add(RootFile, P(J{"type": "array", "items": J{"type": "array", "items": LocalRef("matrixSelf")}}, "definitions", "matrixSelf"))
+		b.Cyclic = true
+		return LocalRef("matrixSelf")
+	})
+	add("arrayOfMapOfItself", "recursive-container", func(b *BundleSpec, s int) J {
+		b.Add(RootFile, P(J{"type": "array", "items": J{"type": "object", "additionalProperties": LocalRef("treeSelf")}}, "definitions", "treeSelf"))
+		b.Cyclic = true
+		return LocalRef("treeSelf")
+	})
+	add("mutualContainersAux", "recursive-container", func(b *BundleSpec, s int) J {
+		b.Add(AuxA, P(J{"type": "array", "items": J{"$ref": "#/definitions/pong"}}, "definitions", "ping"),
+			P(J{"type": "object", "additionalProperties": J{"$ref": "#/definitions/ping"}}, "definitions", "pong"))
+		b.Cyclic = true
+		return J{"$ref": AuxA + "#/definitions/ping"}
+	}).Aux = true
 	add("mapOfItself", "recursive-container", func(b *BundleSpec, s int) J {
 		b.Add(RootFile, P(J{"type": "object", "additionalProperties": LocalRef("mapSelf")}, "definitions", "mapSelf"))
 		b.Cyclic = true
@@ -591,6 +607,36 @@ func Contents(names []string) []Content {
 			"properties": J{"n": J{"type": "string", "x-go-name": "N", "maxLength": 5}, "inner": J{"type": "object", "x-inner": true, "properties": J{"v": J{"type": "number", "default": 1.5}}}}}, "definitions", "auxRich"))
 		return J{"$ref": AuxA + "#/definitions/auxRich"}
 	}).Aux = true
+	for _, body := range []string{"complex", "simple"} {
+		body := body
+		add("collidingImport[threeAtOnce,"+body+"]", "collide", func(b *BundleSpec, s int) J {
+			// a root definition and the same name exported by all three auxiliary documents: four homonyms alive at once
+			mk := func(tag string) J {
+				if body == "simple" {
+					return J{"type": "string", "description": tag}
+				}
+				return simpleObj(tag)
+			}
+			b.Add(RootFile, P(simpleObj("rootQuad"), "definitions", "quad"))
+			b.use("quad")
+			b.Add(AuxA, P(mk("quadA"), "definitions", "quad"))
+			b.Add(AuxB, P(mk("quadB"), "definitions", "quad"))
+			b.Add(AuxC, P(mk("quadC"), "definitions", "quad"))
+			return J{"type": "object", "properties": J{"a": J{"$ref": AuxA + "#/definitions/quad"}, "b": J{"$ref": AuxB + "#/definitions/quad"}, "c": J{"$ref": AuxC + "#/definitions/quad"},
+				"a2": J{"$ref": AuxA + "#/definitions/quad"}}}
+		}).Aux = true
+	}
+	// keyword-like names: a property / definition named like a keyword of the schema or of the document
+	for _, kw := range []string{"definitions", "properties", "items", "paths", "schema", "allOf", "additionalProperties", "parameters", "responses"} {
+		kw := kw
+		add("keywordNamedProperty["+kw+"]", "inline-names", func(b *BundleSpec, s int) J {
+			return J{"type": "object", "properties": J{kw: J{"type": "array", "items": simpleObj("kwItem")}, "other": J{"type": "object", "additionalProperties": simpleObj("kwMap")}}}
+		})
+		add("keywordNamedDefinition["+kw+"]", "ref-local-names", func(b *BundleSpec, s int) J {
+			b.Add(RootFile, P(J{"type": "object", "properties": J{"inner": simpleObj("kwInner")}}, "definitions", kw))
+			return LocalRef(kw)
+		})
+	}
 	for _, v := range []struct{ label, rootName, auxName string; two bool; body string }{
 		{"sameName", "thing", "thing", false, "complex"}, {"caseDifferent", "thing", "Thing", false, "complex"}, {"twoAtOnce", "thing", "thing", true, "complex"},
 		{"sameNameSimple", "thing", "thing", false, "simple"}, {"caseDifferentSimple", "Thing", "thing", false, "simple"},
@@ -668,6 +714,12 @@ func OtherFeatures(names []string) []Feature {
 			b.Add(RootFile, P(J{"operationId": m + "Sh", "parameters": []any{J{"$ref": "#/parameters/shBody"}}}, "paths", "/sh", m),
 				P(J{"$ref": "#/responses/shResp"}, "paths", "/sh", m, "responses", "200"))
 		}
+	})
+	add("sharedObjectsNamedLikeKeywords", "nonschema-names", func(b *BundleSpec, s int) {
+		b.Add(RootFile, P(J{"name": "body", "in": "body", "schema": simpleObj("kwSharedBody")}, "parameters", "definitions"),
+			P(J{"description": "kw", "schema": J{"type": "array", "items": simpleObj("kwSharedItem")}}, "responses", "definitions"),
+			P(J{"operationId": "patchKw", "parameters": []any{J{"$ref": "#/parameters/definitions"}}}, "paths", "/kw", "patch"),
+			P(J{"$ref": "#/responses/definitions"}, "paths", "/kw", "patch", "responses", "200"))
 	})
 	add("itemsInParam", "nonschema", func(b *BundleSpec, s int) {
 		b.Add(RootFile, P(J{"operationId": "headP", "parameters": []any{J{"name": "ids", "in": "query", "type": "array", "items": J{"type": "array", "items": J{"type": "string"}}}}}, "paths", BasePath, "head"),
